@@ -93,8 +93,16 @@ pub fn preimage(label: &str) -> [u8; 32] {
     sha256::Hash::hash(format!("msverif-pre-{}", label).as_bytes()).to_byte_array()
 }
 
+/// Preimage bytes of a hash label; labels `RAW<hex>` commit to exactly those bytes (any length).
+pub fn preimage_bytes(label: &str) -> Vec<u8> {
+    match label.strip_prefix("RAW") {
+        Some(h) => crate::common::unhex(h),
+        None => preimage(label).to_vec(),
+    }
+}
+
 pub fn hash_bytes(kind: char, label: &str) -> Vec<u8> {
-    let p = preimage(label);
+    let p = preimage_bytes(label);
     match kind {
         's' => sha256::Hash::hash(&p).to_byte_array().to_vec(),
         'd' => sha256d::Hash::hash(&p).to_byte_array().to_vec(),
